@@ -159,16 +159,17 @@ def _feasible(ref_iv, est_iv, ref_p, est_p, onset_tolerance, pitch_tolerance,
               use_onset=True, use_pitch=True, use_offset=True):
     """All-pairs feasibility.
 
-    Returns (adj_sure, adj_possible, margin_clear, margin_all):
-    adj_*[i] = estimated notes reference note i may be matched with, counting
-    a pair whose own margin is below AMBIGUITY as infeasible (sure) or as
-    feasible (possible); margin_clear = smallest pair margin among the
-    unambiguous pairs; margin_all = smallest pair margin overall."""
+    Returns (adj, adj_sure, adj_possible, margin_clear, margin_all):
+    adj[i] = estimated notes reference note i may be matched with, every test
+    decided as computed; adj_sure / adj_possible: the same, but counting a pair
+    whose own margin is below AMBIGUITY as infeasible / as feasible;
+    margin_clear = smallest pair margin among the unambiguous pairs;
+    margin_all = smallest pair margin overall."""
     margin_clear = margin_all = INF
-    sure, possible = [], []
+    decided, sure, possible = [], [], []
     use_offset = use_offset and offset_ratio is not None
     for i, (r_on, r_off) in enumerate(ref_iv):
-        row_sure, row_possible = [], []
+        row, row_sure, row_possible = [], [], []
         if use_offset:
             off_tol, off_clean = _offset_tolerance(r_on, r_off, offset_ratio,
                                                    offset_min_tolerance)
@@ -205,6 +206,8 @@ def _feasible(ref_iv, est_iv, ref_p, est_p, onset_tolerance, pitch_tolerance,
             # flips; a miss becomes a hit only when every failing one flips
             pair_margin = max(failing) if failing else min([INF] + [m for _, m in tests])
             margin_all = min(margin_all, pair_margin)
+            if not failing:
+                row.append(j)
             if pair_margin < AMBIGUITY:
                 row_possible.append(j)          # undecidable pair
                 continue
@@ -212,12 +215,13 @@ def _feasible(ref_iv, est_iv, ref_p, est_p, onset_tolerance, pitch_tolerance,
             if not failing:
                 row_sure.append(j)
                 row_possible.append(j)
+        decided.append(row)
         sure.append(row_sure)
         possible.append(row_possible)
-    return sure, possible, margin_clear, margin_all
+    return decided, sure, possible, margin_clear, margin_all
 
 
-def _robust(sure, possible, margin_clear, margin_all, n_est):
+def _robust(decided, sure, possible, margin_clear, margin_all, n_est):
     """Decide which graph / margin to report.  If the undecidable pairs cannot
     change the size of the maximum matching (size with all of them excluded ==
     size with all of them included; the size is monotone in the edge set), the
@@ -225,12 +229,12 @@ def _robust(sure, possible, margin_clear, margin_all, n_est):
     Every maximum matching of the true graph is then a maximum matching of the
     'possible' graph, which is therefore used for the AOR range / uniqueness."""
     if sure == possible:
-        return possible, margin_all
+        return decided, margin_all
     size_lo = sum(1 for v in _max_matching(sure, n_est) if v >= 0)
     size_hi = sum(1 for v in _max_matching(possible, n_est) if v >= 0)
     if size_lo == size_hi:
         return possible, margin_clear
-    return possible, margin_all
+    return decided, margin_all
 
 
 # --------------------------------------------------------------------------
